@@ -93,11 +93,7 @@ def rule_publish_notify(ctx: Ctx, out: Collector) -> None:
                 barrier = {n for n, k, how in nps if k == K or (isinstance(k, tuple) and k[0] == 'attr' and k[2] == 'dest')}
 
                 def edge_ok(ev: Ev, lab: str, mev: Ev, K=K) -> bool:
-                    if ev.kind == 'branch' and lab == 'F' and ev.info.get('test') is not None:
-                        t = sym.term(ctx.p, ev.info['test'], ev.inst)
-                        if _is_dest_test(t, K):
-                            return False
-                    return True
+                    return not _not_dest_edge(ctx, ev, lab, K)
 
                 path = _after_event_search_edges(ctx, g, pub.ev.id, barrier, {g.exit}, prune, edge_ok)
                 cons = _site_construct(ctx, g, pub, f'notify {sym.show(K)} when it is dag.dest')
@@ -135,10 +131,7 @@ def rule_waiting_request_notifies_its_dag(ctx: Ctx, out: Collector) -> None:
             barrier = {m for m, k, how in nps if k == K or (isinstance(k, tuple) and k[0] == 'attr' and k[2] == 'dest')}
 
             def edge_ok(e: Ev, lab: str, mev: Ev, K=K) -> bool:
-                if e.kind == 'branch' and lab == 'F' and e.info.get('test') is not None:
-                    if _is_dest_test(sym.term(ctx.p, e.info['test'], e.inst), K):
-                        return False
-                return True
+                return not _not_dest_edge(ctx, e, lab, K)
             s_ = Search(ctx.p, g, NORMAL_LABELS)
 
             def step(e, state, facts, via=ev.id, barrier=barrier):
@@ -165,13 +158,25 @@ def _is_run_key(ctx: Ctx, k) -> bool:
     return k == ('const', 'run')
 
 
-def _is_dest_test(t, K) -> bool:
-    if isinstance(t, tuple) and t[0] == 'cmp' and t[1] == 'Eq':
+def _is_dest_test(t, K, op: str = 'Eq') -> bool:
+    if isinstance(t, tuple) and t[0] == 'cmp' and t[1] == op:
         a, b = t[2], t[3]
         for x, y in ((a, b), (b, a)):
             if x == K and isinstance(y, tuple) and y[0] == 'attr' and y[2] == 'dest':
                 return True
+    if isinstance(t, tuple) and t[0] == 'not' and op == 'Eq':
+        return _is_dest_test(t[1], K, 'NotEq')
+    if isinstance(t, tuple) and t[0] == 'not' and op == 'NotEq':
+        return _is_dest_test(t[1], K, 'Eq')
     return False
+
+
+def _not_dest_edge(ctx: Ctx, ev: Ev, lab: str, K) -> bool:
+    """The edge is the outcome "K is not the destination of the dag" of a test of K against dag.dest (either spelling)."""
+    if ev.kind != 'branch' or lab not in ('T', 'F') or ev.info.get('test') is None:
+        return False
+    t = sym.term(ctx.p, ev.info['test'], ev.inst)
+    return (lab == 'F' and _is_dest_test(t, K, 'Eq')) or (lab == 'T' and _is_dest_test(t, K, 'NotEq'))
 
 
 def _after_event_search_edges(ctx, g, via, barrier, goals, prune, edge_ok):
